@@ -143,6 +143,9 @@ pub fn boundaries(sc: &Scenario) -> u64 {
                 n += 1;
             }
         }
+        if matches!(st, Step::Route(..) | Step::Split(..) | Step::Bin(..)) {
+            n += 1;
+        }
     }
     n
 }
@@ -265,7 +268,7 @@ pub fn c19(sc: &Scenario, rr: &RunResult) -> Vec<Violation> {
                     expect.push((p, Repl::Unlimited, crate::plan::step_brief(st)));
                 }
             }
-            Step::Un(_, UnOp::Gl(..)) => {
+            Step::Un(_, UnOp::Gl(..)) | Step::Bin(_, _, BinOp::Zip) => {
                 if let Some(p) = find("out") {
                     expect.push((p, Repl::One, crate::plan::step_brief(st)));
                 }
